@@ -55,6 +55,8 @@ def bounded_cases(ctx: Ctx):
                          sort=[True, False][(i // 2) % 2], engine=[None, "numpy", "flox", "numbagg", "numba"][i % 5])
                 if func in ("var", "nanvar") and i % 2:
                     c["finalize_kwargs"] = {"ddof": 1}
+                if i % 3 == 0:
+                    c["expected_kind"] = "index"  # requested labels given as a pandas.Index rather than a list / array
                 if i % 2 and func not in ("first", "last"):
                     c["chunks"] = [list(chunkings[i % len(chunkings)])]
                     c["method"] = [None, "map-reduce", "cohorts"][i % 3]
